@@ -397,6 +397,21 @@ func (cx *Ctx) classifyMapRange(f *ssa.Function, rg *ssa.Range) *mapRange {
 							continue
 						}
 					}
+					// a store read keyed by the range key sees, of this loop's writes, only its
+					// own iteration's (the other iterations write under other keys - the same
+					// reasoning that makes the keyed writes order-free)
+					if k == "store.get" || k == "store.has" {
+						keyed := false
+						for _, a := range x.Common().Args {
+							if derivesFrom(a, keyVals, 0, map[ssa.Value]bool{}) {
+								keyed = true
+							}
+						}
+						if keyed && onlyReads(kinds) {
+							mr.features = append(mr.features, "keyed read through "+callName(x))
+							continue
+						}
+					}
 					stateful++
 					mr.reasons = append(mr.reasons, fmt.Sprintf("%s at %s reaches %s", callName(x), cx.P.Pos(x.Pos()), k))
 				}
@@ -508,6 +523,15 @@ func allLoadsIn(base ssa.Value, inBody func(*ssa.BasicBlock) bool) bool {
 	}
 	visit(base)
 	return ok
+}
+
+func onlyReads(k map[string]bool) bool {
+	for x := range k {
+		if x != "store.get" && x != "store.has" {
+			return false
+		}
+	}
+	return true
 }
 
 func onlyWrites(k map[string]bool) bool {
